@@ -28,6 +28,21 @@ C19_HARNESSES = [
 
 CHECKS = {
     "C19": {"harnesses": C19_HARNESSES},
+    "C16": {
+        "harnesses": [
+            H("events", "evt_v1", 3, 4),
+            H("events", "evt_v2", 2, 3, **{"cache-bits": 24}),
+            H("events", "evt_v1_setreset", 3, 5),
+            H("events", "evt_v2_setreset", 3, 4),
+            H("events", "evt_v1_ctx", 3, 4),
+            H("events", "evt_v2_ctx", 3, 4),
+            H("events", "evt_auto", 3, 4, args=[0]),
+            H("events", "evt_auto", 3, 4, args=[1]),
+            H("events", "pass_call_accept", 3, 4, args=[0]),
+            H("events", "pass_call_accept", 3, 4, args=[1]),
+            H("cancel", "canc_evt2", 2, 3),
+        ],
+    },
     "C15": {
         "harnesses": [
             H("mutexh", "mtx_v1", 3, 4),
